@@ -86,7 +86,7 @@ func newProbeSess() (*psess, error) {
 }
 
 // how the streams get closed; every one goes through the real exported API
-var probeStates = []string{"open", "Close", "Close+Close", "Serve+peerClose", "Serve+handlerErr", "Serve+handlerStreamErr", "Serve+deadline", "Close+Serve+peerClose"}
+var probeStates = []string{"open", "Close", "Close+Close", "Serve+peerClose", "Serve+handlerErr", "Serve+handlerStreamErr", "Serve+deadline", "Close+Serve+peerClose", "Close+Serve+handlerErr"}
 
 func (p *psess) serveUntil(peerBytes string, handlerErr error, deadline bool) error {
 	ret := make(chan error, 1)
@@ -135,6 +135,11 @@ func (p *psess) enter(state string) error {
 			return err
 		}
 		return p.serveUntil(closeTag, nil, false)
+	case "Close+Serve+handlerErr":
+		if err := p.s.Close(); err != nil {
+			return err
+		}
+		return p.serveUntil(probeStanza, errBoom, false)
 	}
 	return fmt.Errorf("unknown state %s", state)
 }
@@ -330,7 +335,7 @@ func closeWriteCell(way string) (seen, bitSet, stateReadable, outLocked bool, ta
 	return
 }
 
-var closeWays = []string{"Close", "Close+Close", "Serve+peerClose", "Serve+handlerErr", "Serve+handlerStreamErr", "Serve+deadline", "Close+Serve+peerClose"}
+var closeWays = []string{"Close", "Close+Close", "Serve+peerClose", "Serve+handlerErr", "Serve+handlerStreamErr", "Serve+deadline", "Close+Serve+peerClose", "Close+Serve+handlerErr"}
 
 func probeFacts(sb *strings.Builder) {
 	entries := probeEntries()
